@@ -64,6 +64,12 @@ def _ordering_step(ctx, fi: FuncInfo) -> None:
         rec = [c for c in walk_no_nested(v.node) if isinstance(c, ast.Call) and call_name(c) == v.name]
         apps = [c for c in walk_no_nested(v.node) if isinstance(c, ast.Call) and call_name(c).endswith(".append") and c.args and unparse(c.args[0]) == p]
         loops = [n for n in walk_no_nested(v.node) if isinstance(n, ast.For) and unparse(n.iter) == f"{p}.referenced_rules"]
+        if rec and apps and not loops:
+            other = [n for n in walk_no_nested(v.node) if isinstance(n, ast.For) and any(c is x for c in rec for x in ast.walk(n))]
+            if other:
+                r.violation("C09.R1", v.qual, f"for … in {unparse(other[0].iter)}", "the ordering traversal does not follow rule.referenced_rules (the reference relation as resolved — it also holds the references taken from an extended condition when no rules list is given): such a correlation rule is no longer moved behind the rules it refers to", f"{v.module.relpath}:{other[0].lineno}")
+                ok = True
+            continue
         if not (rec and apps and loops):
             continue
         loc = f"{v.module.relpath}:{v.node.lineno}"
@@ -227,6 +233,19 @@ def r3_load_paths(ctx) -> None:
             r.ok("C09.R3", f.qual, f"{callee}(..., resolve_references=resolve_references)", f.loc)
         else:
             r.violation("C09.R3", f.qual, f"{callee}(...)", "the resolve_references flag is not handed on: the caller can no longer defer resolution until the rule set is complete (or resolution never happens)", f.loc)
+    # resolving is the default on every load path: a caller has to ask for deferral explicitly
+    for fn in ("from_yaml", "from_dicts", "merge", "load_ruleset"):
+        f = prog.func(f"{COLL}.{fn}")
+        a = f.node.args
+        names = [x.arg for x in a.args]
+        dflt = dict(zip(names[len(names) - len(a.defaults):], a.defaults))
+        dflt.update({k.arg: d for k, d in zip(a.kwonlyargs, a.kw_defaults) if d is not None})
+        d = dflt.get("resolve_references")
+        if isinstance(d, ast.Constant) and d.value is True:
+            r.ok("C09.R3", f.qual, "resolve_references defaults to True", f.loc)
+        else:
+            r.violation("C09.R3", f.qual, f"resolve_references default = {unparse(d) if d is not None else None}", "the load path no longer resolves rule references unless asked to: a dangling reference is not reported when the collection is built, the rule list is not in reference order and get_output_rules() still lists rules whose output a correlation suppresses", f.loc)
+    cf = prog.dataclass_fields(COLL).get("resolve_references")
     lr = prog.func(COLL + ".load_ruleset")
     fy = [c for c in walk_no_nested(lr.node) if isinstance(c, ast.Call) and call_name(c).endswith("from_yaml")]
     mg = [c for c in walk_no_nested(lr.node) if isinstance(c, ast.Call) and call_name(c) == "cls.merge"]
@@ -244,7 +263,7 @@ def r3_load_paths(ctx) -> None:
             r.violation("C09.R3", lr.qual, short(fin[0]), "final resolution is not performed on the merged collection under the caller's flag", f"{lr.module.relpath}:{fin[0].lineno}")
     else:
         r.violation("C09.R3", lr.qual, "merged.resolve_rule_references()", "no resolution over the merged rule set", lr.loc)
-    r.floor("C09.R3", 6)
+    r.floor("C09.R3", 10)
 
 
 def assignments_target(fi: FuncInfo, call: ast.Call, prog) -> ast.AST:
